@@ -299,3 +299,75 @@ class MaximalDecreasingRun:
 
     invariants = {0: _mdr_inv}
     modifies = ()
+
+
+# ------------------------------------------------ longest ascending runs
+# lo(j) (c.rec_asc_lo) is the start of the maximal ascending run ending at j, defined by recursion on j; the run ending
+# at j has j - lo(j) + 1 entries.  The longest run length is the maximum of that over j.  A maximal run is named by its
+# END e (the last index, or a non-ascent p[e] >= p[e+1]); the result lists, in increasing order, exactly the starts
+# lo(e) of the maximal runs with e - lo(e) + 1 = maxi.
+def _lra_end(c, p, n, maxi, e, upto):
+    """e is the end of a maximal run of length maxi (among the pairs read so far when `upto` is given)"""
+    last = (lambda: c.not_(p[e] < p[e + 1])) if upto is not None else (lambda: c.or_(e == n - 1, lambda: c.not_(p[e] < p[e + 1])))
+    return c.and_(e >= 0, (e < upto) if upto is not None else (e <= n - 1), last, lambda: e - c.rec_asc_lo(p, e) + 1 == maxi)
+
+
+def _lra_res(c, p, n, maxi, res, upto):
+    return c.and_(
+        c.forall(0, c.len(res) - 1, lambda t: res[t] < res[t + 1]),
+        # soundness: every listed index starts a maximal run of length maxi (its end is res[t] + maxi - 1)
+        c.forall(0, c.len(res), lambda t: c.and_(res[t] >= 0, lambda: c.rec_asc_lo(p, res[t] + maxi - 1) == res[t], lambda: _lra_end(c, p, n, maxi, res[t] + maxi - 1, upto))),
+        # completeness: the start of every maximal run of length maxi is listed
+        c.forall(0, n, lambda e: c.implies(_lra_end(c, p, n, maxi, e, upto), lambda: c.member(c.rec_asc_lo(p, e), res)),
+                 pattern=(lambda e: c.rec_asc_lo(p, e)) if c.mode == "sym" else None),
+    )
+
+
+def _lra_inv(c, st, k):
+    p = st.self
+    n = c.len(p)
+    maxi, cur, res = st.maxi, st.cur, st.res
+    return c.and_(
+        st.n == n, n >= 1, cur >= 0, cur <= k, cur == c.rec_asc_lo(p, k),
+        maxi >= 1,
+        # no run among the positions read so far is longer than maxi (the top position is stated on its own: the
+        # recursion of lo unfolds at the syntactic term k), and one has that length
+        c.forall(0, k, lambda j: j - c.rec_asc_lo(p, j) + 1 <= maxi, pattern=(lambda j: c.rec_asc_lo(p, j)) if c.mode == "sym" else None),
+        k - cur + 1 <= maxi,
+        c.exists(0, c.int(k) + 1, lambda j: j - c.rec_asc_lo(p, j) + 1 == maxi),
+        c.forall(0, c.len(res), lambda t: res[t] < cur),
+        _lra_res(c, p, n, maxi, res, k),
+    )
+
+
+@contract("Perm.longestruns_ascending", params={"self": "Perm"}, returns="int+IntList", props=P)
+class LongestRunsAscending:
+    def requires(c, self):
+        return c.is_perm(self)
+
+    def ensures(c, self, result):
+        n = c.len(self)
+        maxi, res = result[0], result[1]
+        return c.and_(
+            c.implies(n == 0, lambda: c.and_(maxi == 0, c.len(res) == 0)),
+            c.implies(n >= 1, lambda: c.and_(
+                maxi >= 1,
+                c.forall(0, n, lambda j: j - c.rec_asc_lo(self, j) + 1 <= maxi),
+                c.exists(0, n, lambda j: j - c.rec_asc_lo(self, j) + 1 == maxi),
+                _lra_res(c, self, n, maxi, res, None),
+            )),
+        )
+
+    invariants = {0: _lra_inv}
+    modifies = ()
+
+
+@contract("Perm.length_of_longestrun_ascending", params={"self": "Perm"}, returns="int", props=P)
+class LengthOfLongestRunAscending:
+    def requires(c, self):
+        return c.is_perm(self)
+
+    def ensures(c, self, result):
+        return result == c.call("Perm.longestruns_ascending", self)[0]
+
+    modifies = ()
